@@ -340,6 +340,31 @@ def oracle(sc, r, want=("C07", "C08", "C09")):
         for o in ops:
             if o["op"]["op"] == "shutdown" and (o["t1"] - o["t0"]) > 1000000 and not sc.get("slow_quit"):
                 bad.append(("C09", "shutdown did not return promptly", "%.0f ms" % ((o["t1"] - o["t0"]) / 1000.0)))
+    if "C08" in want and sc["pool"].get("min_idle", 0) > 0 and not sc.get("expect_connect_fail"):
+        target = min(sc["pool"]["min_idle"], sc["pool"].get("max", 10))
+        idle, P = 0, [(i, e) for i, e in enumerate(log) if e[1] == "P"]
+        for j, (i, e) in enumerate(P):
+            pt = e[2]
+            if pt == "shutdown":
+                break
+            if pt in ("recycle_park", "maint_push"):
+                idle += 1
+            elif pt == "pop" and e[3]:
+                idle -= 1
+            elif pt == "maint_scan":
+                dropped = len([x for x in e[3].split(",") if x])
+                idle -= dropped
+                rest = P[j + 1:]
+                nxt = next((jj for jj, (_, x) in enumerate(rest) if x[2] in ("maint_scan", "maint_exit", "shutdown")), None)
+                if dropped and nxt is not None and rest[nxt][1][2] == "maint_scan":
+                    win = [x for _, x in rest[:nxt]]
+                    quiet = all(x[2].startswith("maint_") for x in win)          # no send touched the pool during this pass
+                    pushed = sum(1 for x in win if x[2] == "maint_push")
+                    gave_up = any(x[2] == "maint_drop_new" for x in win)
+                    if quiet and not gave_up and idle + pushed < target:
+                        bad.append(("C08", "a maintenance pass that expired %d idle connection(s) did not top the idle set up to min_idle in the same pass" % dropped,
+                                    "idle after the scan %d, opened in that pass %d, min(min_idle, max_size) %d" % (idle, pushed, target)))
+                        break
     live = [e for e in log if e[1] == "C" and e[2] == "census_live"]
     if live and not live[0][3]["all_closed"]:
         # a server that never answers QUIT keeps its socket until the read timeout: not the case in these scenarios
@@ -365,7 +390,7 @@ def base(rng, kind, pool, **kw):
 
 
 def send_op(name, rng):
-    return {"op": "send", "id": name, "nrcpt": rng.choice([1, 1, 2, 3]), "size": rng.choice([0, 0, 300, 5000, 70000])}
+    return {"op": "send", "id": name, "nrcpt": rng.choice([1, 1, 2, 3]), "size": rng.choice([0, 0, 300, 5000, 70000]), "shape": rng.choice([0, 0, 0, 1, 2, 3])}
 
 
 def gen_concurrent(rng, kind, n):
@@ -512,6 +537,21 @@ def gen_stale_under_traffic(rng, kind, n):
     return out
 
 
+def gen_expiry_during_send(rng, kind, n):
+    """C07: several parked connections expire in one maintenance pass while another send is in flight on a connection taken from the
+    same idle set; that send must still end as exactly one commit reported as one success, and later sends must work."""
+    out = []
+    for k in range(n):
+        sc = base(rng, kind, {"max": 4, "min_idle": 0, "idle_ms": 80}, probe_delay_us=0, reply_delay_us=0)
+        sc["senders"] = [[dict(send_op("p%d" % j, rng), size=70000)] for j in range(rng.choice([3, 3, 4]))]
+        # the (n+1)-th end of data overall is answered only after 300 ms: the pass in between finds all other idle connections expired
+        sc["faults"] = [{"conn": None, "cmd": "BODY", "nth": len(sc["senders"]), "act": "stall", "ms": 300}]
+        sc["after"] = [{"op": "sleep", "ms": rng.choice([5, 20])}, send_op("inflight", rng), send_op("next", rng), {"op": "debug"}, send_op("last", rng)]
+        sc["family"] = "expiry-during-send"
+        out.append(sc)
+    return out
+
+
 def gen_shutdown(rng, kind, n):
     """C09: one or two shutdowns racing 1..3 senders and the maintenance pass; drop with idle connections."""
     out = []
@@ -532,7 +572,9 @@ def gen_shutdown(rng, kind, n):
             sc["senders"].append(sh)
             sc["after"] = [{"op": "debug"}, send_op("late", rng), {"op": "test"}, {"op": "shutdown"}, send_op("later", rng)]
         elif variant == 2:
-            # quiescent shutdown with idle connections, then use after shutdown
+            # quiescent shutdown with idle connections (or with pooling switched off: max_size 0), then use after shutdown
+            if k % 3 == 0:
+                pool["max"] = 0; pool["min_idle"] = 0
             sc["after"] = [{"op": "debug"}, {"op": "shutdown"}, {"op": "debug"}, send_op("late", rng), {"op": "test"}]
         elif variant == 5:
             # quiescent shutdown with several idle connections, one of which fails its QUIT (or was closed by the
